@@ -117,6 +117,7 @@ def run(run, replay=None):
     pool = [c for c in cases if c['recs']]
     for k, c in enumerate(rng.sample(pool, min(8, len(pool)))):
         z = copy.deepcopy(c)
+        z['canary_of'] = z['id']
         z['id'] = 'canary-%d' % k
         r = z['recs'][-1]
         if k % 2 and (r['raw'] or r['text']):
